@@ -35,6 +35,7 @@ type q2Scn struct {
 	Close  bool
 	FailAt int
 	Second bool // a second query to another address follows; nobody answers it
+	Heavy  bool // thorough tier only
 }
 
 func q2Scenarios() []q2Scn {
@@ -49,6 +50,8 @@ func q2Scenarios() []q2Scn {
 		{Name: "fail2-reply", Tries: 2, Reply: true, FailAt: 2},
 		{Name: "all", Tries: 2, Reply: true, Cancel: true, Close: true},
 		{Name: "reply-cancel-then-second", Tries: 1, Reply: true, Cancel: true, Second: true},
+		{Name: "all-3", Heavy: true, Tries: 3, Reply: true, Cancel: true, Close: true},
+		{Name: "fail3-reply-wrong", Heavy: true, Tries: 3, Reply: true, Wrong: true, FailAt: 3},
 	}
 }
 
@@ -275,7 +278,7 @@ func c14SyncTierImpl(t *testing.T, w *explore.Worker, idx *int) {
 		scn := scn
 		i := *idx
 		*idx++
-		if !w.Mine(i) {
+		if !w.Mine(i) || (scn.Heavy && !w.Thorough()) {
 			continue
 		}
 		if w.OutOfTime() {
@@ -286,6 +289,9 @@ func c14SyncTierImpl(t *testing.T, w *explore.Worker, idx *int) {
 		w.BeginUnit(i, unit)
 		d := &explore.DFS{W: w, Unit: unit, Preempt: pb, Observe: scn.Tries + 2, DetCheck: 2, Prune: true, MaxViol: 5,
 			Run: func(prefix []int) explore.Exec { return runQ2(t, &scn, prefix) }}
+		if scn.Heavy {
+			d.Deadline = time.Now().Add(w.Remaining() / 3)
+		}
 		d.Explore()
 		w.Note(fmt.Sprintf("%s: %d executions, %d states expanded, %d prunings, max %d scheduling points", unit, d.Executions, d.States, d.Pruned, d.MaxPoints))
 		w.Distinct(unit)
